@@ -1,10 +1,16 @@
 """C14 — a clean stop loses nothing."""
-from . import gwfam
+from . import gwfam, stopwin
 
 THEOREMS = ["MySensors.C14.change_marks_dirty", "MySensors.C14.clean_invariant",
             "MySensors.C14.clean_stop_loses_nothing", "MySensors.C14.clean_stop_loses_nothing_fresh",
             "MySensors.C14.stop_writes"]
 ASSUMPTIONS = [
+    "stop() is the model's atomic `stop` step for lines handled before it; the shutdown window itself (lines the "
+    "pump handles while stop() runs) is Model/StopOrder.lean: stop()'s own actions are disconnect then final "
+    "save, a reply goes out only while connected; tied to the code by recording that order inside the real "
+    "stop() of both flavours and by handling real id requests before stop, at the disconnect, at the final save "
+    "and after stop (harness/stopwin.py); every generated history also has its last line before a stop handled "
+    "at the moment of the disconnect",
     "the file written by a successful save reproduces the persisted projection on load (C11) and the save "
     "itself is atomic (C12); here persistence is the abstract 'disk := persisted projection'",
     "Model/Gateway.lean mirrors __init__.py / handler.py / sensor.py / ota.py (sampled by the correspondence)",
@@ -32,6 +38,7 @@ def relevant(hist, obs):
 
 def run(tier, seed, driver):
     res = gwfam.run_family("C14", tier, seed, driver, CFG, relevant)
+    stopwin.part(res, "C14", driver, tier)
     res.rule = ("state-aware random histories over all versions/kinds with json or pickle persistence, save ticks "
                 "and stop+restart cycles at random positions; corpus first; non-trivial = contains a restart; "
                 "distinct by op script")
@@ -39,4 +46,6 @@ def run(tier, seed, driver):
 
 
 def replay(payload):
+    if payload.get("replay", {}).get("op") == "stop-window":
+        return stopwin.replay(payload["replay"])
     return gwfam.replay_family("C14", payload)
